@@ -67,23 +67,23 @@ type submitObs struct {
 }
 
 type sim struct {
-	r      *vk.Run
-	c      Case
-	ctx    context.Context
-	im     *world.Image
-	exec   *world.ExecDouble
-	seq    *world.SeqDouble
-	da     *world.DADouble
-	keys   world.Keys
-	n      *world.Node
-	t      time.Time
-	txN    int
-	viol   []string
+	r    *vk.Run
+	c    Case
+	ctx  context.Context
+	im   *world.Image
+	exec *world.ExecDouble
+	seq  *world.SeqDouble
+	da   *world.DADouble
+	keys world.Keys
+	n    *world.Node
+	t    time.Time
+	txN  int
+	viol []string
 	// accepted[stream][height] = stored on the DA double
-	accepted map[string]map[uint64]bool
+	accepted  map[string]map[uint64]bool
 	curStream string
-	wmSnap   uint64
-	nCalls   int
+	wmSnap    uint64
+	nCalls    int
 	freshProc bool // no submission seen yet from the current Manager
 }
 
